@@ -39,6 +39,15 @@ func (c *Ctx) Fn(rel, recv, name string) *ssa.Function {
 	return f
 }
 
+// FnOpt resolves a function that a rule can do without (a thin wrapper that may have been inlined away).
+func (c *Ctx) FnOpt(rel, recv, name string) *ssa.Function {
+	f := c.P.Func(rel, recv, name)
+	if f == nil || len(f.Blocks) == 0 {
+		return nil
+	}
+	return f
+}
+
 func (c *Ctx) Pos(p token.Pos) string { return c.P.Pos(p) }
 
 func (c *Ctx) InstrPos(in ssa.Instruction) string {
